@@ -630,7 +630,14 @@ class Evaluator(object):
             if "static" in info:
                 oid = ("static", info["static"])
                 if oid not in st.objs:
-                    st.objs[oid] = OpaqueV(t.get("to"), "static:" + info["static"])
+                    v_ = None
+                    if info.get("immutable") and "bytes" in info:
+                        # a read-only table: its value is its initialiser
+                        try:
+                            v_ = self.decode_bytes(bytes.fromhex(info["bytes"]), t["to"])
+                        except Unsupported:
+                            v_ = None
+                    st.objs[oid] = v_ if v_ is not None else OpaqueV(t.get("to"), "static:" + info["static"])
                 return Ref(oid, ())
             raise Unsupported("pointer constant %r" % (info,))
         if "mem" in c:
